@@ -129,3 +129,34 @@ Theorem C18_human_quiet : forall verb files, (verb < 0)%Z ->
   run_lint_v verb Human files = (0, map (fun _ => ([], None)) files).
 Proof. exact human_quiet. Qed.
 Print Assumptions C18_human_quiet.
+
+(** the end of [Linter::lint_parsed]: the formatter (any implementation of the public trait) is handed exactly the
+    violations of the returned [LintedFile] — the collected ones that the file's ignore mask does not cover *)
+Theorem C18_formatter_fed : forall raw,
+  fed raw = returned raw /\
+  (forall v, In v (fed raw) <-> In (v, false) raw) /\
+  (forall v, In (v, true) raw -> ~ In (v, false) raw -> ~ In v (fed raw)).
+Proof. exact fed_is_returned. Qed.
+Print Assumptions C18_formatter_fed.
+
+(** lint on top of it, any format, any documented verbosity: every file's printed lines are the library's result
+    for it and the exit code follows the library's result *)
+Theorem C18_lint_front : forall verb fmt raws,
+  (0 <= verb)%Z -> no_ignore (map returned raws) ->
+  let '(code, reps) := lint_front verb fmt raws in
+  (code = 1 \/ code = 0) /\
+  (code = 1 <-> exists raw v, In raw raws /\ In v (returned raw) /\ v_warning v = false) /\
+  Forall2 (fun rep raw => Permutation (fst rep) (map rl (returned raw))) reps raws.
+Proof. exact lint_front_spec. Qed.
+Print Assumptions C18_lint_front.
+
+(** fix on top of it: what is printed is the library's result, exit 1 exactly when a printed violation cannot be
+    auto-fixed, nothing printed => nothing written *)
+Theorem C18_fix_front : forall fmt files reps code writes,
+  no_ignore (map (fun f => returned (c_raw f)) files) ->
+  fix_front fmt true files = Some (reps, (code, writes)) ->
+  Forall2 (fun rep f => Permutation rep (map rl (returned (c_raw f)))) reps files /\
+  (code = 1 <-> exists f v, In f files /\ In v (returned (c_raw f)) /\ v_fixable v = false) /\
+  ((forall rep, In rep reps -> rep = []) -> writes = []).
+Proof. exact fix_front_spec. Qed.
+Print Assumptions C18_fix_front.
